@@ -119,6 +119,8 @@ class _Acc:
         for c in v.get("cls", ()):
             self.cls[c] = self.cls.get(c, 0) + 1
         self.cycles += int(v.get("cycles", 0))
+        for c, k in (v.get("counts") or {}).items():
+            self.cls[c] = self.cls.get(c, 0) + int(k)
         if v.get("skipped"):
             self.skipped += 1
         if v.get("nt"):
@@ -285,7 +287,7 @@ def _load_json(path):
 
 
 def write_replay(prop, subname, case, verdict, folder="found"):
-    d = os.path.join(VERIF, "replays", folder)
+    d = os.environ.get("VERIF_FOUND_DIR") or os.path.join(VERIF, "replays", folder)
     os.makedirs(d, exist_ok=True)
     name = "%s-%s-%s.json" % (prop, subname, chash(case))
     path = os.path.join(d, name)
@@ -450,8 +452,9 @@ def main(prop, modname, tier, seed, replay=None):
         "wall_s": round(time.time() - t_start, 2),
         "violations": len(violations),
     }
-    os.makedirs(os.path.join(VERIF, "evidence"), exist_ok=True)
-    with open(os.path.join(VERIF, "evidence", prop + ".json"), "w") as f:
+    evdir = os.environ.get("VERIF_EVIDENCE_DIR") or os.path.join(VERIF, "evidence")
+    os.makedirs(evdir, exist_ok=True)
+    with open(os.path.join(evdir, prop + ".json"), "w") as f:
         json.dump(ev, f, indent=1, sort_keys=True, default=str)
 
     print("%s tier=%s seed=%s evaluations=%d distinct_nontrivial=%d wall=%.1fs" %
